@@ -125,7 +125,7 @@ Definition noq (u : bool) (r : list N) : Prop := sp_quant u false r = SOk false 
 Definition stop (r : list N) : Prop := r = [] \/ exists r', r = g_rparen :: r'.
 
 Lemma stop_noq u r : stop r -> noq u r.
-Proof. intros [->|[r' ->]]; reflexivity. Qed.
+Proof. intros [->|[r' ->]]; destruct u; reflexivity. Qed.
 Lemma noq_head u c r : noq u (c :: r) -> is_quant_char c = false.
 Proof. unfold noq. cbn [sp_quant]. destruct (is_quant_char c); [discriminate|reflexivity]. Qed.
 Lemma noq_skip_lazy u r : noq u r -> skip_lazy r = r.
@@ -133,8 +133,8 @@ Proof.
   destruct r as [|c r]; [reflexivity|]. intros H. apply noq_head in H. cbn [skip_lazy].
   unfold is_quant_char in H. apply orb_false_iff in H. destruct H as [_ H]. rewrite H. reflexivity.
 Qed.
-Lemma noq_cons_nonspecial u c r : is_quant_char c = false -> (c =? g_lbrace) = false -> noq u (c :: r).
-Proof. intros H1 H2. unfold noq. cbn [sp_quant]. rewrite H1, H2. reflexivity. Qed.
+Lemma sp_brq_not_brace u ne c r : (c =? g_lbrace) = false -> sp_brq u ne (c :: r) = SOk false (c :: r).
+Proof. intros H. unfold sp_brq. cbn [sp_braced starts_with]. rewrite H. rewrite andb_false_r. reflexivity. Qed.
 
 (* ================= soundness ================= *)
 Lemma skip_lazy_cases r : skip_lazy r = r \/ r = g_question :: skip_lazy r.
@@ -154,21 +154,24 @@ Proof.
     { unfold is_quant_char in Eq. apply orb_true_iff in Eq. destruct Eq as [Eq|Eq]; [apply orb_true_iff in Eq; destruct Eq as [Eq|Eq]|];
         apply N.eqb_eq in Eq; subst c; constructor. }
     exact (Quantifier_of_prefix [c] l' Hp).
-  - destruct (c =? g_lbrace); [|discriminate].
-    destruct (sp_braced (c :: l')) as [[[n om] r']|] eqn:Eb.
+  - unfold sp_brq. destruct (sp_braced (c :: l')) as [[[n om] r']|] eqn:Eb.
     + cbn [negb andb]. destruct (bounds_ok n om) eqn:Ebo; cbn [negb]; [|discriminate]. intros [= <-].
       apply sp_braced_sound in Eb. destruct Eb as [q [HB ->]].
       apply Quantifier_of_prefix. apply (QP_braced q n om HB).
       intros m ->. cbn [bounds_ok] in Ebo. apply N.leb_le in Ebo. exact Ebo.
-    + destruct (negb false && u)%bool; discriminate.
+    + destruct (negb false && u && starts_with g_lbrace (c :: l'))%bool; discriminate.
+Qed.
+Lemma sp_brq_false u ne l r : sp_brq u ne l = SOk false r -> r = l.
+Proof.
+  unfold sp_brq. destruct (sp_braced l) as [[[n om] r']|].
+  - destruct (negb ne && negb (bounds_ok n om))%bool; discriminate.
+  - destruct (negb ne && u && starts_with g_lbrace l)%bool; [discriminate|intros [= <-]; reflexivity].
 Qed.
 Lemma sp_quant_false u ne l r : sp_quant u ne l = SOk false r -> r = l.
 Proof.
   destruct l as [|c l']; cbn [sp_quant]; [intros [= <-]; reflexivity|].
-  destruct (is_quant_char c); [discriminate|]. destruct (c =? g_lbrace); [|intros [= <-]; reflexivity].
-  destruct (sp_braced (c :: l')) as [[[n om] r']|].
-  - destruct (negb ne && negb (bounds_ok n om))%bool; discriminate.
-  - destruct (negb ne && u)%bool; [discriminate|intros [= <-]; reflexivity].
+  destruct (is_quant_char c); [discriminate|].
+  destruct (sp_brq u ne (c :: l')) as [[|] r'| |] eqn:E; try discriminate. intros [= <-]. exact (sp_brq_false _ _ _ _ E).
 Qed.
 
 Lemma Alternative_cons u t a r : Term u t (a ++ r) -> Alternative u a r -> Alternative u (t ++ a) r.
@@ -240,14 +243,15 @@ Proof.
   - apply AE_control; exact H.
   - apply AE_identity; exact H.
 Qed.
+Lemma sp_brq_noerr_false u0 l r : sp_brq u0 true l = SOk false r -> sp_braced l = None.
+Proof. unfold sp_brq. destruct (sp_braced l) as [[[n om] r']|]; [cbn [negb andb]; discriminate|reflexivity]. Qed.
+Lemma sp_brq_noerr_none u0 l : sp_braced l = None -> sp_brq u0 true l = SOk false l.
+Proof. unfold sp_brq. intros ->. reflexivity. Qed.
 Lemma sp_atom_sound l b r : sp_assertion sdisj l = SOk false l -> sp_atom u sdisj l = SOk b r ->
   (b = true /\ exists w, l = w ++ r /\ Atom u w r) \/ (b = false /\ r = l).
 Proof.
   intros Hna.
   destruct l as [|c l']; cbn [sp_atom]; [intros [= <- <-]; right; split; reflexivity|].
-  destruct (syntax_character c) eqn:Es; cbn [negb].
-  2:{ intros [= <- <-]. left. split; [reflexivity|]. exists [c]. split; [reflexivity|].
-      apply At_char; [apply nonsyntax_pattern_char; exact Es|]. intros _. apply not_ibq_head. intros ->. discriminate Es. }
   destruct (N.eqb_spec c g_dot) as [->|_].
   { intros [= <- <-]. left. split; [reflexivity|]. exists [g_dot]. split; [reflexivity|apply At_dot]. }
   destruct (N.eqb_spec c g_backslash) as [->|_].
@@ -267,14 +271,14 @@ Proof.
     intros H. apply sp_group_body_sound in H. destruct H as [-> [d [-> Hd]]]. left. split; [reflexivity|].
     exists (g_lparen :: g_question :: g_colon :: d ++ [g_rparen]). split; [cbn [app]; rewrite <- app_assoc; reflexivity|].
     apply At_noncapturing; exact Hd. }
-  destruct u eqn:Eu; [intros [= <- <-]; right; split; reflexivity|].
-  destruct (N.eqb_spec c g_lbrace) as [->|Hlb].
-  { destruct (sp_braced (g_lbrace :: l')) eqn:Eb; [discriminate|]. intros [= <- <-]. left. split; [reflexivity|].
-    exists [g_lbrace]. split; [reflexivity|]. apply At_char; [reflexivity|]. intros _. apply not_ibq_none. exact Eb. }
-  destruct ((c =? g_rbrace) || (c =? g_rbracket))%bool eqn:Ec; [|intros [= <- <-]; right; split; reflexivity].
+  destruct u eqn:Eu.
+  { destruct (syntax_character c) eqn:Es; cbn [negb]; [intros [= <- <-]; right; split; reflexivity|].
+    intros [= <- <-]. left. split; [reflexivity|]. exists [c]. split; [reflexivity|].
+    apply At_char; [cbn [pattern_char]; rewrite Es; reflexivity|discriminate]. }
+  destruct (sp_brq false true (c :: l')) as [[|] r0| |] eqn:Eb; try discriminate.
+  destruct (extended_pattern_character c) eqn:Ec; [|intros [= <- <-]; right; split; reflexivity].
   intros [= <- <-]. left. split; [reflexivity|]. exists [c]. split; [reflexivity|].
-  apply At_char; [|intros _; apply not_ibq_head; exact Hlb].
-  apply orb_true_iff in Ec. destruct Ec as [Ec|Ec]; apply N.eqb_eq in Ec; subst c; reflexivity.
+  apply At_char; [exact Ec|]. intros _. apply not_ibq_none. exact (sp_brq_noerr_false _ _ _ Eb).
 Qed.
 Lemma sp_quantified_sound r0 b r : sp_quantified u r0 = SOk b r ->
   b = true /\ (r = r0 \/ exists q, r0 = q ++ r /\ Quantifier q).
@@ -364,7 +368,7 @@ Proof.
   { intros p r0 Hp. destruct Hp as [| | |p n om HB Hle]; try reflexivity.
     pose proof (sp_braced_complete p n om HB r0) as Eb. destruct (Braced_head p n om HB) as [p' ->].
     cbn [app sp_quant] in *. cbn [is_quant_char N.eqb Pos.eqb g_lbrace g_star g_plus g_question orb].
-    rewrite Eb. cbn [negb andb].
+    unfold sp_brq. change 123 with g_lbrace. rewrite Eb. cbn [negb andb].
     assert (Hb : bounds_ok n om = true).
     { destruct om as [m|]; [|reflexivity]. cbn [bounds_ok]. apply N.leb_le. apply Hle. reflexivity. }
     rewrite Hb. reflexivity. }
@@ -381,32 +385,33 @@ Lemma grammar_heads u :
 Proof.
   apply grammar_mutind.
   - intros a r _ IH. exact IH.
-  - intros a d r _ IHa _ _. right. destruct IHa as [->|IHa]; [reflexivity|]. rewrite <- app_assoc. exact IHa.
+  - intros a d r _ IHa _ _. right. destruct IHa as [->|IHa]; [destruct u; reflexivity|]. rewrite <- app_assoc. exact IHa.
   - intros r. left. reflexivity.
   - intros a t r _ IHa _ [Hne IHt]. right. destruct IHa as [->|IHa]; [exact IHt|]. rewrite <- app_assoc. exact IHa.
   - intros a r _ IH. exact IH.
   - intros a q r _ _ [Hne IHa] _. split; [destruct a; [contradiction|discriminate]|]. rewrite <- app_assoc. exact IHa.
   - intros a r _ IH. exact IH.
   - intros a q r _ [Hne IHa] _. split; [destruct a; [contradiction|discriminate]|]. rewrite <- app_assoc. exact IHa.
-  - intros r. split; [discriminate|reflexivity].
-  - intros r. split; [discriminate|reflexivity].
-  - intros r. split; [discriminate|reflexivity].
-  - intros r. split; [discriminate|reflexivity].
+  - intros r. split; [discriminate|destruct u; reflexivity].
+  - intros r. split; [discriminate|destruct u; reflexivity].
+  - intros r. split; [discriminate|destruct u; reflexivity].
+  - intros r. split; [discriminate|destruct u; reflexivity].
   - intros a r _ IH. exact IH.
-  - intros d r _ _. split; [discriminate|reflexivity].
-  - intros d r _ _. split; [discriminate|reflexivity].
-  - intros d r _ _. split; [discriminate|reflexivity].
-  - intros d r _ _. split; [discriminate|reflexivity].
+  - intros d r _ _. split; [discriminate|destruct u; reflexivity].
+  - intros d r _ _. split; [discriminate|destruct u; reflexivity].
+  - intros d r _ _. split; [discriminate|destruct u; reflexivity].
+  - intros d r _ _. split; [discriminate|destruct u; reflexivity].
   - intros c r Hc Hib. split; [discriminate|]. cbn [app]. unfold noq. cbn [sp_quant].
-    rewrite (pattern_char_not_quant u c Hc). destruct (N.eqb_spec c g_lbrace) as [->|_]; [|reflexivity].
-    destruct u; [discriminate Hc|].
+    rewrite (pattern_char_not_quant u c Hc). destruct (N.eqb_spec c g_lbrace) as [->|Hn].
+    2:{ apply N.eqb_neq in Hn. rewrite (sp_brq_not_brace u false c r Hn). reflexivity. }
+    destruct u; [discriminate Hc|]. unfold sp_brq.
     destruct (sp_braced (g_lbrace :: r)) as [[[n om] r']|] eqn:Eb; [|reflexivity].
     exfalso. apply sp_braced_sound in Eb. destruct Eb as [q [HB E]].
     exact (Hib eq_refl q r' (ex_intro _ n (ex_intro _ om HB)) E).
-  - intros r. split; [discriminate|reflexivity].
-  - intros c r _ _. split; [discriminate|reflexivity].
-  - intros d r _ _. split; [discriminate|reflexivity].
-  - intros d r _ _. split; [discriminate|reflexivity].
+  - intros r. split; [discriminate|destruct u; reflexivity].
+  - intros c r _ _. split; [discriminate|destruct u; reflexivity].
+  - intros d r _ _. split; [discriminate|destruct u; reflexivity].
+  - intros d r _ _. split; [discriminate|destruct u; reflexivity].
 Qed.
 
 (* more fuel does not change a result *)
@@ -446,7 +451,7 @@ Definition P_At (w r : list N) : Prop :=
   sp_atom u (sp_disjunction u f) (w ++ r) = SOk true r /\ sp_assertion (sp_disjunction u f) (w ++ r) = SOk false (w ++ r).
 
 Lemma stop_after_bars r : stop r -> sp_quant u true r = SOk false r /\ starts_with g_lbrace r = false.
-Proof. intros [->|[r' ->]]; split; reflexivity. Qed.
+Proof. intros [->|[r' ->]]; split; destruct u; reflexivity. Qed.
 Lemma P_D_disjunction d r : P_D d r -> forall f, stop r -> (length (d ++ r) < f)%nat ->
   sp_disjunction u f (d ++ r) = SOk tt r.
 Proof.
@@ -468,6 +473,8 @@ Lemma alt_stops_at f r : r = [] \/ (exists r', r = g_rparen :: r') \/ (exists r'
   sp_alternative u (sp_disjunction u f) 1 r = SOk tt r.
 Proof. intros [->|[[r' ->]|[r' ->]]]; [reflexivity| |]; cbn; destruct u; reflexivity. Qed.
 
+Lemma stop_bar_noq r : noq u (g_bar :: r).
+Proof. destruct u; reflexivity. Qed.
 Lemma app_comm_cons' (a b : list N) c : (a ++ [c]) ++ b = a ++ c :: b.
 Proof. rewrite <- app_assoc. reflexivity. Qed.
 Lemma noq_not_question r q l : noq u r -> r = q :: l -> (q =? g_question) = false.
@@ -493,7 +500,7 @@ Proof.
     exists (g_bar :: d ++ r). split; [|split].
     + assert (E : sp_alternative u (sp_disjunction u f) 1 (g_bar :: d ++ r) = SOk tt (g_bar :: d ++ r)).
       { apply alt_stops_at. right. right. exists (d ++ r). reflexivity. }
-      pose proof (IHa f 1%nat _ (eq_refl : noq u (g_bar :: d ++ r)) Hlen E ltac:(discriminate)) as H.
+      pose proof (IHa f 1%nat _ (stop_bar_noq (d ++ r)) Hlen E ltac:(discriminate)) as H.
       apply (sp_alternative_mono _ _ _ _ _ H); [discriminate|]. rewrite app_length. lia.
     + rewrite app_length. lia.
     + intros g Hg. destruct g as [|g]; [cbn in Hg; lia|]. cbn [sp_bars]. rewrite N.eqb_refl.
@@ -541,17 +548,18 @@ Proof.
     + cbn [app sp_assertion]. rewrite app_comm_cons'. cbn [N.eqb Pos.eqb is_eq_or_bang orb].
       apply (P_D_group_body d r IHd). cbn [length app] in Hlen. rewrite app_comm_cons' in Hlen. cbn [length] in *. lia.
     + cbn. reflexivity.
-  - (* At_char *) intros c r Hc Hib f _. cbn [app]. split.
-    + cbn [sp_atom]. destruct (syntax_character c) eqn:Hs; cbn [negb]; [|reflexivity].
-      destruct u eqn:Eu; [cbn [pattern_char] in Hc; rewrite Hs in Hc; discriminate Hc|].
-      destruct (ext_syntax_cases c Hc Hs) as [->|[->| ->]]; cbn [N.eqb Pos.eqb g_dot g_backslash g_lparen g_lbrace g_rbrace g_rbracket orb]; try reflexivity.
-      destruct (sp_braced (g_lbrace :: r)) as [[[n om] r']|] eqn:Eb; [|reflexivity].
-      exfalso. apply sp_braced_sound in Eb. destruct Eb as [q [HB E]].
-      exact (Hib eq_refl q r' (ex_intro _ n (ex_intro _ om HB)) E).
-    + cbn [sp_assertion].
-      destruct (N.eqb_spec c g_caret) as [->|_]; [destruct u; discriminate|]. destruct (N.eqb_spec c g_dollar) as [->|_]; [destruct u; discriminate|].
-      destruct (N.eqb_spec c g_backslash) as [->|_]; [destruct u; discriminate|].
-      destruct (N.eqb_spec c g_lparen) as [->|_]; [destruct u; discriminate|]. reflexivity.
+  - (* At_char *) intros c r Hc Hib f _. cbn [app].
+    assert (Hn : (c =? g_dot) = false /\ (c =? g_backslash) = false /\ (c =? g_lparen) = false /\
+                 (c =? g_caret) = false /\ (c =? g_dollar) = false).
+    { repeat split; apply N.eqb_neq; intros ->; destruct u; discriminate Hc. }
+    destruct Hn as [H1 [H2 [H3 [H4 H5]]]]. split.
+    + cbn [sp_atom]. rewrite H1, H2, H3. destruct u eqn:Eu; [cbn [pattern_char] in Hc; rewrite Hc; reflexivity|].
+      rewrite sp_brq_noerr_none.
+      * cbn [pattern_char] in Hc. rewrite Hc. reflexivity.
+      * destruct (sp_braced (c :: r)) as [[[n om] r']|] eqn:Eb; [|reflexivity].
+        exfalso. apply sp_braced_sound in Eb. destruct Eb as [q [HB E]].
+        exact (Hib eq_refl q r' (ex_intro _ n (ex_intro _ om HB)) E).
+    + cbn [sp_assertion]. rewrite H4, H5, H2, H3. reflexivity.
   - (* At_dot *) intros r f _. split; reflexivity.
   - (* At_escape *) intros c r He Hne f _. cbn [app sp_atom sp_assertion sp_escape]. cbn [N.eqb Pos.eqb negb syntax_character existsb orb].
     rewrite Hne. split; [|reflexivity].
